@@ -2,7 +2,7 @@
    Only statements, `exact`, Print Assumptions and non-vacuity examples. *)
 From Coq Require Import List Bool Arith Reals Lra Sorted.
 Import ListNotations.
-From PS Require Import Num RLemmas Valid ModelKernels ModelFuncs ModelAPI Spec SyncDefs Lem_IsiProps Lem_Spike Lem_Mrts Lem_API.
+From PS Require Import Num RLemmas Valid ModelKernels ModelFuncs ModelAPI Spec SyncDefs Lem_IsiProps Lem_Spike Lem_Mrts Lem_API Lem_WF Lem_API2.
 From PS Require Lem_Order Lem_OrderSpec.
 Require Import PS.Props.PropTac.
 Local Open Scope R_scope.
@@ -87,6 +87,35 @@ Theorem C07_directionality_self : forall eps cy mt m a, valid (tr_start a) (tr_e
   spike_directionality ROps eps cy false false mt m a a = Ok 0.
 Proof. exact Lem_OrderSpec.directionality_self_zero. Qed.
 Print Assumptions C07_directionality_self.
+
+(* ---- API level, SPIKE distance and sub-intervals, both backends (Lem_API2.v) ---- *)
+Theorem C07_spike_distance_range : forall eps cy m ri iv a b ts te d, vtrain ts te a -> vtrain ts te b -> 0 <= m -> iv_ok ts te iv ->
+  spike_distance_bi ROps eps cy false m ri iv a b = Ok d -> 0 <= d <= 1.
+Proof. exact spike_distance_range. Qed.
+Print Assumptions C07_spike_distance_range.
+Theorem C07_spike_distance_symmetric : forall eps cy m ri iv a b ts te, vtrain ts te a -> vtrain ts te b ->
+  spike_distance_bi ROps eps cy false m ri iv a b = spike_distance_bi ROps eps cy false m ri iv b a.
+Proof. exact spike_distance_symmetric. Qed.
+Print Assumptions C07_spike_distance_symmetric.
+Theorem C07_spike_distance_self : forall eps cy m ri iv a ts te, vtrain ts te a -> iv_ok ts te iv ->
+  spike_distance_bi ROps eps cy false m ri iv a a = Ok 0.
+Proof. exact spike_distance_self. Qed.
+Print Assumptions C07_spike_distance_self.
+Theorem C07_isi_distance_range_iv : forall eps cy m iv a b ts te d, vtrain ts te a -> vtrain ts te b -> iv_ok ts te iv ->
+  isi_distance_bi ROps eps cy false m iv a b = Ok d -> 0 <= d <= 1.
+Proof. exact isi_distance_range_iv. Qed.
+Print Assumptions C07_isi_distance_range_iv.
+Theorem C07_isi_distance_self_iv : forall eps cy m iv a ts te, vtrain ts te a -> iv_ok ts te iv ->
+  isi_distance_bi ROps eps cy false m iv a a = Ok 0.
+Proof. exact isi_distance_self_iv. Qed.
+Print Assumptions C07_isi_distance_self_iv.
+(* multivariate values stay in [0,1] (they are averages / pooled ratios of pair values) *)
+Theorem C07_multi_ranges : forall eps cy m mt ri iv l ts te, (2 <= length l)%nat -> Forall (vtrain ts te) l -> iv_ok ts te iv -> 0 <= m ->
+  (exists d, isi_distance_multi ROps eps cy false m iv l None = Ok d /\ 0 <= d <= 1) /\
+  (exists d, spike_distance_multi ROps eps cy false m ri iv l None = Ok d /\ 0 <= d <= 1) /\
+  (exists d, spike_sync_multi ROps eps cy false mt m iv l None = Ok d /\ 0 <= d <= 1).
+Proof. exact multi_ranges. Qed.
+Print Assumptions C07_multi_ranges.
 
 Example C07_nonvacuous : vtrain 0 1 ([0; 1/2; 1], 0, 1) /\ vtrain 0 1 ([], 0, 1).
 Proof. unfold vtrain; cbn [tr_spikes tr_start tr_end fst snd]; repeat split; try lra; valid_tac. Qed.
